@@ -113,7 +113,7 @@ def correspondence(ctx):
         sts = [fagen.mk_stats(sc, s) for s in sc["sts"]]
         ctx.count("blocks:" + ("jfa" if sc["jfa"] else "isv"))
         ctx.case(["b", core.tolist(sc["U"]), core.tolist(y), core.tolist(z)], nontrivial=len(sts) >= 2, sample={"C": sc["C"], "D": sc["D"], "rU": sc["rU"], "rV": sc["rV"], "sessions": len(sts)})
-        inp = {**{k: sc[k] for k in ("C", "D", "rU", "rV", "jfa", "w", "m", "v", "U", "V", "Dd", "route", "np_ints", "layout", "int_subspaces", "ubm_layout", "ubm_int_means", "sts")}, "y": y, "xs": xs, "z": z}
+        inp = {**{k: sc[k] for k in ("C", "D", "rU", "rV", "jfa", "w", "m", "v", "U", "V", "Dd", "route", "np_ints", "layout", "int_subspaces", "ubm_layout", "ubm_int_means", "ubm_mvt", "sts")}, "y": y, "xs": xs, "z": z}
         res = core.impl(lambda: blocks_impl(mach, sc, sts, y, xs, z))
         if isinstance(res, core.ImplError):
             bad.append({"op": "fa_blocks:update_z", "input": inp, "impl": repr(res)})
@@ -137,7 +137,7 @@ def correspondence(ctx):
         ctx.count(f"{tag}:iters={k}")
         ctx.case(["e", core.tolist(sc["U"]), core.tolist([s["f"] for s in sc["sts"]]), k], nontrivial=len(sts) >= 2 or k >= 2,
                  sample={"machine": "jfa" if sc["jfa"] else "isv", "sessions": len(sts), "iterations": k, "logpost_model": core.dec(o["logpost"])})
-        inp = {**{kk: sc[kk] for kk in ("C", "D", "rU", "rV", "jfa", "w", "m", "v", "U", "V", "Dd", "route", "np_ints", "layout", "int_subspaces", "ubm_layout", "ubm_int_means", "sts")}, "iterations": k}
+        inp = {**{kk: sc[kk] for kk in ("C", "D", "rU", "rV", "jfa", "w", "m", "v", "U", "V", "Dd", "route", "np_ints", "layout", "int_subspaces", "ubm_layout", "ubm_int_means", "ubm_mvt", "sts")}, "iterations": k}
         res = core.impl(lambda: enroll_impl(sc, sts, k))
         my, mz = fagen.dec1(o["y"], sc["rV"]), core.dec(o["z"]).reshape(-1)
         if isinstance(res, core.ImplError) or not (core.close(my, res[0], 1e-7, 1e-9) and core.close(mz, res[1], 1e-7, 1e-9)):
@@ -227,7 +227,7 @@ def search(ctx):
                 f["array_seed"] = aseed
         if f and f["sig"] not in seen:
             seen.add(f["sig"])
-            f["input"] = {k: sc[k] for k in ("C", "D", "rU", "rV", "jfa", "w", "m", "v", "U", "V", "Dd", "route", "np_ints", "layout", "int_subspaces", "ubm_layout", "ubm_int_means", "sts")}
+            f["input"] = {k: sc[k] for k in ("C", "D", "rU", "rV", "jfa", "w", "m", "v", "U", "V", "Dd", "route", "np_ints", "layout", "int_subspaces", "ubm_layout", "ubm_int_means", "ubm_mvt", "sts")}
             fails.append(f)
     return fails
 
